@@ -9,6 +9,7 @@
 import DltVerif.Lemmas.CodecMessage
 import DltVerif.Lemmas.CodecEncode
 import DltVerif.Props.C01
+import DltVerif.Lemmas.Utf8Spec
 
 namespace Dlt
 open Dlt.Spec
@@ -146,6 +147,13 @@ theorem C02_reference_roundtrip (m : Message) (h : m.wf = true) (sfx : Bytes) :
   simp only [verdictOf, List.length_append]
   congr 1
   omega
+
+/-- the text of a field as the reference codec reads it is the longest prefix, of the bytes
+    before the first NUL, that is valid UTF-8 in the sense of RFC 3629 (found by search) -/
+theorem C02_text (b : Bytes) :
+    Spec.fieldText b
+      = Spec.longestValid (b.takeWhile fun x => x != 0#8) (b.takeWhile fun x => x != 0#8).length := by
+  rw [longestValid_self]; rfl
 
 /-- non-vacuity: the big-endian network-trace message of C01 is laid out as 41 bytes starting
     with the storage pattern and HTYP 0x3F -/
